@@ -62,8 +62,13 @@ func canonHandle(logged string, panicked bool, key, raw []byte) (out string, pla
 	rec, derr := bleparser.DecodeSolarChargeRecord(plain)
 	if i := strings.Index(logged, "solar charger record="); i >= 0 {
 		txt := strings.TrimSuffix(logged[i+len("solar charger record="):], "\n")
-		if derr != nil || fmt.Sprintf("%#v", rec) != txt {
+		if fmt.Sprintf("%#v", rec) != txt {
 			return out + ";rec-differs-from-decoder:" + txt, plain, logged
+		}
+		if derr != nil {
+			// the decoder rejected the plaintext and the handler shows what the decoder handed back together with its error
+			// (dropping such a record or logging it is the handler's choice): the decoder's verdict is what counts
+			return out + ";err:" + errKind(derr), plain, logged
 		}
 		return out + ";rec:" + strings.ReplaceAll(renderRecord(rec), ";", ","), plain, logged
 	}
